@@ -135,7 +135,9 @@ Proof. vm_compute. repeat split; reflexivity. Qed.
    statement, or a local not assigned from that statement on; a local has one
    defining assignment; a phi occurs only as the whole right-hand side of an
    assignment - all evaluated by the check on every graph the
-   implementation hands to propagation), for EVERY immediate-dominator table and
+   implementation hands to propagation), for EVERY table that has the shape of an
+   immediate-dominator table (DegJustify.idom_shape: every entry names an earlier
+   block, every predecessor is a block of the graph; evaluated by the check as well) and
    for EVERY number of degree passes k,
    the ranges Model.Propagate has attached after k passes are accepted by the
    validator DegJustify.djust_cfg (which judges a phi with the control of its block
@@ -146,7 +148,7 @@ Proof. vm_compute. repeat split; reflexivity. Qed.
 Require Import Model.DegJustify Model.DegWf Proofs.DegInvariant.
 
 Theorem C20_degrees_validated_at_every_budget : forall k idom c bs env,
-  deg_wf c = true ->
+  deg_wf c = true -> idom_shape c idom = true ->
   degrees_passes k idom (denv_init (c_kind c) (c_params c)) (c_blocks c) = (bs, env) ->
   djust_cfg (set_blocks c bs) idom = true.
 Proof. exact degrees_validated_at_every_budget. Qed.
@@ -154,10 +156,11 @@ Print Assumptions C20_degrees_validated_at_every_budget.
 
 (* the same for the whole propagation: value passes under budget kv (they leave
    degree claims, targets, types, declared names and the shape of every expression
-   untouched, so deg_wf still holds of their output), then degree passes under
-   budget kd *)
+   untouched, so deg_wf still holds of their output; neither kind of pass changes the
+   number of blocks or a predecessor list, so idom_shape is kept), then degree passes
+   under budget kd *)
 Theorem C20_propagate_degrees_validated_at_every_budget : forall kv kd p idom c c',
-  deg_wf c = true -> propagate kv kd p idom c = Ok c' -> djust_cfg c' idom = true.
+  deg_wf c = true -> idom_shape c idom = true -> propagate kv kd p idom c = Ok c' -> djust_cfg c' idom = true.
 Proof. exact propagate_degrees_validated_at_every_budget. Qed.
 Print Assumptions C20_propagate_degrees_validated_at_every_budget.
 
@@ -191,6 +194,7 @@ Definition ex20d_ret_deg (o : outcome cfg) : option (option drange) :=
   end.
 Example C20_degrees_example :
   deg_wf ex20d_graph = true /\
+  idom_shape ex20d_graph [None] = true /\
   forallb (fun k => match propagate k k 7 [None] ex20d_graph with Ok c => djust_cfg c [None] | _ => false end) [0; 1; 2; 9; 20; 40]%nat = true /\
   forallb (fun k => match propagate 9 k 7 [None] ex20d_graph with Ok c => djust_cfg c [None] | _ => false end) [0; 1; 2; 9; 20; 40]%nat = true /\
   ex20d_ret_deg (propagate 0 0 7 [None] ex20d_graph) = Some None /\
@@ -237,6 +241,7 @@ Definition ex20c_phi_deg (o : outcome cfg) : option (option drange * option dran
   end.
 Example C20_control_example :
   deg_wf ex20c_graph = true /\
+  idom_shape ex20c_graph ex20c_idom = true /\
   forallb (fun k => match propagate 9 k 7 ex20c_idom ex20c_graph with Ok c => djust_cfg c ex20c_idom | _ => false end)
           [0; 1; 2; 3; 9; 20]%nat = true /\
   ex20c_phi_deg (propagate 9 0 7 ex20c_idom ex20c_graph) = Some (None, None) /\
